@@ -211,6 +211,9 @@ def run(ctx: Ctx):
                     ctx.count(("wired:" if e["t"] == "S" else "wireless:") + v)
                     if e["children"]:
                         ctx.count("send-with-nested-sends")
+                    for side in ("nodeS", "nodeR"):
+                        if e.get(side) not in (None, "ON"):
+                            ctx.count(f"wired-send-while-the-{'sending' if side == 'nodeS' else 'receiving'}-node-is-{e[side]}:{v}")
                 elif e["t"] in ("E", "F"):
                     ctx.count("iface-toggle:" + ("wired" if e["t"] == "E" else "wireless"))
         # toggles that happened inside a delivery
@@ -239,6 +242,8 @@ def run(ctx: Ctx):
             caps = dict(case["topo"]["cap"])
             if "WIFI_2_4" in case["topo"]["freqs"] and caps.get(rig.ALT_NAME) != caps.get("WIFI_2_4"):
                 ctx.count("topo:wireless-two-names-different-capacities")
+        if "topo" in case and case["topo"].get("power_family"):
+            ctx.count("family:power-transitions (countdowns ticked with traffic, enable refused, same-tick disable request)")
         if "topo" in case and case["topo"].get("aliased_channel_family"):
             ctx.count("family:aliased-channel (two names on one hz, both send in one tick)")
         maxdepth = max(maxdepth, d)
